@@ -6,7 +6,7 @@ Oracle: the four caps, the truncation flag, and level order against an independe
 """
 import itertools
 
-from .. import graphs, snapref
+from .. import graphs, snapref, rig
 
 ID = 'C05'
 LEVEL = 'exploration'
@@ -44,7 +44,7 @@ def cases(tier, seed):
     chunk = 8
     for i in range(0, len(specs), chunk):
         out.append({'k': 'graphs', 'specs': specs[i:i + chunk]})
-    for kind in ('list', 'tuple', 'set', 'dict', 'obj', 'chain', 'string', 'manylocals', 'watch'):
+    for kind in ('list', 'tuple', 'set', 'dict', 'obj', 'chain', 'string', 'manylocals', 'watch', 'text'):
         for lim in (0, 1, 2, 3, 10):
             for d in (-1, 0, 1):
                 if lim + d >= 0:
@@ -127,6 +127,40 @@ def run_param(ctx, desc):
             check_one(ctx, spec, dict(L, MAX_VARIABLES=lim + 2), None, leaves=leaves, param=desc, watches=w)
             check_one(ctx, spec, dict(L, MAX_STRING_LENGTH=lim, MAX_COLLECTION_SIZE=max(lim, 1)), None, leaves=leaves, param=desc, watches=w)
             check_one(ctx, spec, dict(L, MAX_STRING_LENGTH=lim, MAX_COLLECTION_SIZE=max(lim, 1), log_msg='l {%s}' % w[0]), None, leaves=leaves, param=desc, watches=[])
+    elif kind == 'text':
+        # the other places where text of the program enters a snapshot: the names of a dictionary's children (its keys), the text a log
+        # field is replaced by, the text of a failed watch
+        for dl in (0, 1, 5):
+            S = lim + dl
+            n = size + 20
+            loc = {'d': {'k' * n: 1, tuple(range(n)): 2, b'z' * n: 3, 'short': 4}, 'body': 'b' * n, 'rows': [(i, i) for i in range(n)], 'z': 1}
+            cfg = dict(L, MAX_STRING_LENGTH=S, watches=['d[body]', 'body'], log_msg='got {body} with {rows} and {d[body]}')
+            agent, run, info = snapref.take(loc, [cfg], plugins=[rig.RecLogger(rig.Journal())])
+            ctx.case()
+            case = dict(desc, S=S)
+            if run.escaped or len(agent.snapshots) != 1:
+                ctx.violation('C05/text/no-snapshot', f'max_string_length {S}: snapshots={len(agent.snapshots)}', case)
+                return
+            snap = agent.snapshots[0]
+            ctx.nt(('text', lim, size, dl))
+            ctx.outcome(('text', S))
+            for var in snap.var_lookup.values():
+                if var.type != 'dict' or {'d', 'body', 'rows', 'z'} <= {c.name for c in var.children}:
+                    continue        # the entry of the frame's own variables: names of the source, not data
+                for c in var.children:
+                    if len(c.name) > max(S, 0):
+                        ctx.violation('C05/max-string-length-exceeded/child-name', f'max_string_length {S}: a dictionary key of {n} characters is the name of a child, '
+                                      f'recorded with {len(c.name)} characters', case)
+                        return
+            for w in snap.watches:
+                if w.error and len(w.error) > max(S, len("variable limit reached")):
+                    ctx.violation('C05/max-string-length-exceeded/watch-error', f'max_string_length {S}: the error text of watch {w.expression[:20]!r} has {len(w.error)} characters', case)
+                    return
+            budget = len('got  with  and ') + len('[deep] ') + 2 * max(S, 0) + max(S, len('KeyError'))     # (the third field fails: at least the name of the error)
+            if snap.log_msg is not None and len(snap.log_msg) > budget:
+                ctx.violation('C05/max-string-length-exceeded/log-message', f'max_string_length {S}: the log message (3 fields, 22 characters of its own) '
+                              f'has {len(snap.log_msg)} characters', case)
+                return
     elif kind == 'manylocals':
         # `size` scalar locals + one big structure declared first / last: locals must not be crowded out
         names = ['v%d' % i for i in range(size)]
